@@ -401,8 +401,11 @@ def _hkey(hist):
 def run(tier):
     core.setup_psyclone_env()
     conf = dict(TIERS["thorough" if tier == "thorough" else "quick"])
-    if os.environ.get("PV_C15_CFG"):             # development
+    if os.environ.get("PV_C15_CFG"):             # development / demonstrations
         conf["cfg"] = os.environ["PV_C15_CFG"]
+    if os.environ.get("PV_C15_SIM"):
+        conf["sim_num"] = int(os.environ["PV_C15_SIM"])
+        conf["sim_depth"] = conf["sim_depth"] or 5
     out = core.Outcome("C15", tier, "model_checking", matchers=MATCHERS)
     workers = int(os.environ.get("PV_WORKERS", core.NCPU))
     cov = {"states": 0, "transitions": 0, "traces_validated_against_impl": 0,
